@@ -4,8 +4,8 @@
 
    The model mirrors the code AFTER the repairs made for this property (commits "fix:" in the pipefunc
    worktree: arity of generic arguments, direction for a required Annotated, string metadata, annotated union
-   sources, element type of an Array against a plain Annotated, constrained TypeVar target without match).  Model/TyOrig.v keeps the dispatch of the
-   unrepaired code for the `_refuted` witnesses. *)
+   sources, element type of an Array against a plain Annotated, constrained TypeVar target without match).
+   Model/TyOrig.v keeps the dispatch of the unrepaired code for the `_refuted` witnesses. *)
 From Verif Require Import Base.Prelude.
 
 (* ---------- the grammar ---------- *)
